@@ -85,6 +85,30 @@ def cleanup_cases(ctx):
     return out
 
 
+IDLE_CLOCK = [0, 0] + [100] * 40       # the warm call at time 0, everything else 100 s later: the idle connection has expired
+
+
+def idle_cases(ctx):
+    """pool_idle_timeout > 0: a connection has sat idle for longer than the timeout, the next call's checkout closes it, and the
+    interruption lands inside that close() (or at any later socket call of the same operation)"""
+    out = []
+    warm = (0, 0, b"w", b"1", 0, False, None)
+    for cfg in CONFIGS[:2]:
+        c = dict(cfg, default_noreply=False)
+        dry = cs.run_impl(c, [warm], [], [], (), None, None, {0: b"STORED\r\n"})
+        n0 = sum(1 for e in dry[1] if e[0] != 8)
+        for op, rep in OPS:
+            if op[0] == 23:
+                continue
+            for fop, frep in FOLLOW[:2]:
+                ops = [warm, op, fop, fop]
+                rbo = {0: b"STORED\r\n", 1: rep or b"", 2: frep, 3: frep}
+                for kind in BASE:
+                    for pos in range(0, 4):
+                        out.append((c, ops, [0] * (n0 + pos) + [(TAGS[kind],)], [], rbo))
+    return out
+
+
 def correspondence(ctx):
     cl = cases(ctx) + late_cases(ctx)[::3] + cleanup_cases(ctx)
     hk = cs.handler_kinds()
@@ -108,12 +132,21 @@ def correspondence(ctx):
         mm = cs.decode_pooled(m)
         if tuple(r[:5]) != tuple(mm[:5]):
             dis.append({"pooled": True, "cfg": repr(c), "pool": pc, "ops": repr(ops)[:120], "script": repr(sc), "choices": repr(ch), "impl": repr(r[0]), "model": repr(mm[0] if len(mm) > 1 else mm)})
+    # pooled with an idle timeout: the checkout that follows the expiry closes the idle connection, the interruption lands there
+    idle = [(c, (size, 5), ops, sc, ch, rbo) for (c, ops, sc, ch, rbo) in idle_cases(ctx)[::3] for size in (1, 2)]
+    im = ctx.driver.call_many([cs.pooled_req(c, pc, ops, sc, ch, [rbo[i] for i in range(len(ops))], IDLE_CLOCK, hk, hp) for c, pc, ops, sc, ch, rbo in idle])
+    for (c, pc, ops, sc, ch, rbo), m in zip(idle, im):
+        r = cs.run_pooled(c, pc, ops, sc, ch, [rbo[i] for i in range(len(ops))], IDLE_CLOCK)
+        mm = cs.decode_pooled(m)
+        if tuple(r[:5]) != tuple(mm[:5]):
+            dis.append({"pooled": True, "cfg": repr(c), "pool": pc, "ops": repr(ops)[:120], "script": repr(sc), "clock": "0,0,100...", "impl": repr(r[0]), "model": repr(mm[0] if len(mm) > 1 else mm)})
+    pooled = pooled + idle
     return {"evaluations": len(cl) + len(pooled), "distinct_nontrivial": len(cl) + len(pooled),
             "rule": "extracted Client and PooledClient models vs the real classes (results, full socket traces, pool used/free "
                     "counts): 15 operations (incl. quit, cache_memlimit, shutdown) x 3 follow-up operations (twice) x 3 configurations x KeyboardInterrupt/SystemExit/"
                     "greenlet timeout at EVERY non-recv socket call position 0..8 and at each of the first 3 recv calls, and raised inside "
                     "sendall AFTER the bytes were taken (the reply will arrive), and inside the close() of the cleanup after a read timeout; pooled "
-                    "with max_pool_size 1 and 2; every case is non-trivial (one interruption)",
+                    "with max_pool_size 1 and 2, and with pool_idle_timeout=5 after an idle period (the interruption inside the close of the expired connection); every case is non-trivial (one interruption)",
             "samples": [{"cfg": repr(c), "ops": repr(o)[:80], "script": repr(s), "choices": repr(h)} for c, o, s, h, r in cl[100:103]],
             "distribution": {"client_cases": len(cl), "pooled_cases": len(pooled)}, "exhaustive": True, "disagreements": dis}
 
@@ -181,7 +214,26 @@ def search(ctx):
             if why:
                 found.append({"clause": why, "input": {"class": {None: "Client", 1: "PooledClient(max_pool_size=1)", "hash": "HashClient", "hash-pooled": "HashClient(use_pooling=True)"}[pooled_size], "cfg": repr(c), "ops": repr(ops), "script": repr(sc), "choices": repr(ch)},
                               "observed": repr(results), "size": len(sc) + len(ch), "case": repr((c, ops, sc, ch, rbo, pooled_size))})
-    ctx.search_summary = {"runs_with_tagged_replies": n}
+    ni = 0
+    for c, ops, sc, ch, rbo in idle_cases(ctx):
+        for size in (1, 2):
+            ni += 1
+            r = cs.run_pooled(c, (size, 5), ops, sc, ch, (), IDLE_CLOCK, rbo)
+            results, world = [x[0] for x in r[0]], r[5]
+            used_after = [x[1] for x in r[0]]
+            why = None
+            if world.foreign:
+                rd, owner, sid = world.foreign[0]
+                why = "call %d consumed reply bytes that answer call %d (socket %d)" % (rd, owner, sid)
+            elif any(u != 0 for u in used_after):
+                why = "pool slot lost: %r clients checked out after the calls (pool_idle_timeout=5, the idle connection had expired)" % (used_after,)
+            elif any(x == ("e", "RuntimeError") for x in results):
+                why = "pool exhausted after an interrupted call (RuntimeError: Too many objects)"
+            if why:
+                found.append({"clause": why, "input": {"class": "PooledClient(max_pool_size=%d, pool_idle_timeout=5)" % size, "cfg": repr(c), "ops": repr(ops),
+                                                        "script": repr(sc), "clock": "warm call at 0, the rest at 100"},
+                              "observed": repr(r[0]), "size": len(sc) + len(ch), "case": repr((c, ops, sc, ch, rbo, ("idle", size)))})
+    ctx.search_summary = {"runs_with_tagged_replies": n, "idle_expiry_runs": ni}
     found.sort(key=lambda v: v["size"])
     return found[:1]
 
@@ -198,6 +250,10 @@ def replay(ctx, obj):
     if not v or not v.get("case"):
         return None
     c, ops, sc, ch, rbo, ps = eval(v["case"])
+    if isinstance(ps, tuple):
+        r = cs.run_pooled(c, (ps[1], 5), ops, sc, ch, (), IDLE_CLOCK, rbo)
+        print("results", r[0], "foreign", r[5].foreign)
+        return bool(r[5].foreign) or any(x[1] for x in r[0]) or any(x[0] == ("e", "RuntimeError") for x in r[0])
     if isinstance(ps, str):
         r = cs.run_impl(c, ops, sc, ch, (), hash_maker(ps == "hash-pooled"), None, rbo)
         print("results", r[0], "foreign reads", r[6].foreign)
